@@ -88,6 +88,7 @@ structure Conn where
   dsnrntype : Bytes := []
   serverName : Bytes := []
   tls      : Bool := false              -- the connection is a *tls.Conn
+  broken   : Option Err := none         -- the TLS handshake failed (the server is out of reach: srvGone): the tls.Conn reports this error for every further write
   auth     : List Bytes := []           -- mechanisms of the latest EHLO's AUTH line
   -- debug logging
   debug    : Bool := false
@@ -152,7 +153,7 @@ def Conn.applyAct (c : Conn) (v : Verb) (expect : Nat) : Act → Conn × Except 
 
 /-- The server takes its next action for `v`; the client then reads one reply expecting `expect`. -/
 def Conn.serverTurn (c : Conn) (v : Verb) (expect : Nat) : Conn × Except Err (Nat × Bytes) :=
-  if c.srvGone then (c, .error .eof)
+  if c.srvGone then (c, .error (c.broken.getD .eof))
   else if c.srvSilent then c.waitSilent
   else c.pop.2.applyAct v expect c.pop.1
 
